@@ -87,5 +87,11 @@ MUTANTS = [
      'edits': [E(Q, """            ON s.rowid = rel.target_rowid
            AND s.lexicon_rowid IN lexrowids""", """            ON s.rowid = rel.target_rowid
            AND s.lexicon_rowid IN (SELECT rowid FROM lexrowids)""")], 'xfail': 'filter through a sub-select on the CTE is not recognised'},
+    {'name': 'sense-relation-target-without-wordnet', 'expect': 'C04-R7',
+     'edits': [E(C, "                sid, eid, ssid, lexid, rowid, _wordnet=self._wordnet\n", "                sid, eid, ssid, lexid, rowid\n")]},
+    {'name': 'word-senses-bound-to-fresh-wordnet', 'expect': 'C04-R7',
+     'edits': [E(C, "        return [Sense(*sense_data, _wordnet=self._wordnet) for sense_data in iterable]", "        return [Sense(*sense_data, _wordnet=Wordnet()) for sense_data in iterable]", count=2)]},
+    {'name': 'benign-local-synset-positional-wordnet', 'expect': 'silent', 'property': 'C04',
+     'edits': [E(C, "Synset(*row, _wordnet=_wn)", "Synset(*row, _wordnet=self._wordnet)")]},
 ]
 MUTANTS = [m for m in MUTANTS if 'xfail' not in m]
